@@ -1149,6 +1149,7 @@ def method_value_table(repo, rep):
             bad = None
             n_ok = 0
             n_skip = 0
+            raised = None
             # a chain that asks a class for a conversion to itself (DMSAngle has no .dms()) does not exist
             names_ = {'dms': 'DMSAngle', 'ddm': 'DDMAngle', 'deca': 'DECAngle', 'gona': 'GONAngle'}
             cur_cls = cname
@@ -1176,6 +1177,8 @@ def method_value_table(repo, rep):
                         got = decval(ev, cur) if cur is not None else None
                     except (AnalysisError, RecursionError, KeyError, TypeError, ZeroDivisionError):
                         base = got = None
+                    if getattr(ev, 'raised', None) and raised is None:
+                        raised = (args, pos, ev.raised[0])
                     if base is None or got is None:
                         n_skip += 1
                         continue
@@ -1189,6 +1192,13 @@ def method_value_table(repo, rep):
                         n_ok += 1
                     elif bad is None:
                         bad = (args, pos, got, want)
+            if raised is not None:
+                args, pos, (rq_, rst_) = raised
+                rep.violated('R-TABLE', key + '::raises', where(f0, rst_) if False else '%s:%d' % (f0.module.relpath, rst_.lineno),
+                             '%s(%s, positive=%s).%s(): `%s` in %s is reached - an exception for an object of the lattice (fields that the class itself builds: round() leaves a '
+                             'minutes / seconds field of exactly 60 when 59.97 rounds up)' % (cname, ', '.join(str(float(x_)) if isinstance(x_, F) else str(x_) for x_ in args), pos,
+                                                                                                '().'.join(chain), stmt_text(rst_)[:60], rq_),
+                             expected='a value', actual='raise')
             if bad is not None:
                 args, pos, got, want = bad
                 rep.violated('R-TABLE', key, where(f0, f0.node), '%s(%s, positive=%s).%s() denotes %.12g degrees, the angle itself is %s%.12g: the conversion does not keep the angle' % (
